@@ -4,8 +4,10 @@
    are GENERATED from /repo's geometry.py on every run (gen/Gen_geometry.v); point_density,
    its kernels and poles_all are the hand-written Model_density.v (tied by the differential run).
    Arrays are `arr R = nat -> R`; the scalar entry points return arrays of length 1. *)
+From Coq Require Import Ascii String.
 From Coq Require Import Reals ZArith List Permutation.
 From PV Require Import Num NumR Model_density Proofs_geometry Proofs_density.
+From PV Require Import Model_poles_axes Proofs_poles_axes.
 From PV.gen Require Import Gen_geometry.
 Import ListNotations.
 Open Scope R_scope.
@@ -52,6 +54,88 @@ Theorem C20_poles_total : forall ax (As : list (arr R)) (hkl : arr R),
   valid_axes ax -> Forall (fun A => dnorm A hkl <> 0) As ->
   exists ps, @poles_all NumR ax As hkl = Ok ps.
 Proof. exact poles_total_proof. Qed.
+
+(* --- poles: the reference-axes STRING (every spelling, defaults, batch) ---------------- *)
+(* poles_str / ref_axes_read (Model_poles_axes.v) model what the source does with the string
+   itself: .lower(), set("xyz") - set(..) .pop() (`pick` = the element pop() returns), the
+   two dictionary look-ups.  spelling_table = the 24 case spellings of the six strings. *)
+
+(* case-insensitive for EVERY string (legal or not), every number type, every pop() *)
+Theorem C20_poles_case_insensitive : forall (F : Num) (s : string) (pick : nat) (As : list (arr F)) (hkl : arr F),
+  poles_str (lower_str s) pick As hkl = poles_str s pick As hkl.
+Proof. exact @poles_case_insensitive_proof. Qed.
+
+(* each of the 24 spellings is read as (first letter, second letter, [the remaining axis]) *)
+Theorem C20_poles_spellings_read :
+  Forall (fun sa : string * Z => valid_axes (snd sa) /\ ref_axes_read (fst sa) = read_as (snd sa)) spelling_table.
+Proof. exact spellings_read_proof. Qed.
+
+Theorem C20_poles_spellings_complete :
+  List.length spelling_table = 24%nat /\ NoDup (map fst spelling_table) /\
+  (forall ax, valid_axes ax -> exists s, In (s, ax) spelling_table /\ lower_str s = s) /\
+  (forall s ax, In (s, ax) spelling_table -> In (lower_str s, ax) spelling_table).
+Proof. exact spellings_complete_proof. Qed.
+
+(* every spelling: same result as the batch over the generated function of the lower-case
+   string (C20_poles_are_direction / _unit / _total then apply), independent of pop() *)
+Theorem C20_poles_spelling : forall (s : string) (ax : Z) (pick : nat) (As : list (arr R)) (hkl : arr R),
+  In (s, ax) spelling_table -> @poles_str NumR s pick As hkl = @poles_all NumR ax As hkl.
+Proof. exact poles_str_spelling_proof. Qed.
+
+Theorem C20_poles_spelling_direction : forall (s : string) (ax : Z) (pick : nat) (As : list (arr R)) (hkl : arr R) ps,
+  In (s, ax) spelling_table -> @poles_str NumR s pick As hkl = Ok ps ->
+  Forall2 (fun A p => dnorm A hkl <> 0 /\ p = unit_dir ax A hkl) As ps /\
+  Forall (fun p : R * R * R => let '(a, b, c) := p in a * a + b * b + c * c = 1) ps.
+Proof. exact poles_str_are_direction_proof. Qed.
+
+(* tie T: `poles` is traced from the source for each of the 24 spellings (k_poles_xz,
+   k_poles_Xz, k_poles_xZ, k_poles_XZ, ...); all four traces of a pair are the same function *)
+Theorem C20_poles_generated_spellings :
+  map fst gen_table = spelling_table /\
+  Forall (fun t : string * Z * gen_fn => forall A hkl, snd t A hkl = poles_gen (snd (fst t)) A hkl) gen_table.
+Proof. exact gen_spellings_proof. Qed.
+
+(* the default arguments, traced from the source: ref_axes = "xz", hkl = [1, 0, 0] *)
+Theorem C20_poles_defaults : forall A : arr R, @k_poles_default NumR A = poles_gen 1 A e100.
+Proof. exact poles_default_proof. Qed.
+
+(* the batch is the map of the one-orientation function; batches concatenate *)
+Theorem C20_poles_batch_is_map : forall (F : Num) (ax : Z) (As : list (arr F)) (hkl : arr F) ps,
+  poles_all ax As hkl = Ok ps -> Forall2 (fun A p => poles_one ax A hkl = Ok p) As ps.
+Proof. exact @poles_batch_proof. Qed.
+
+Theorem C20_poles_batch_app : forall (F : Num) (ax : Z) (As Bs : list (arr F)) (hkl : arr F) ps qs,
+  poles_all ax As hkl = Ok ps -> poles_all ax Bs hkl = Ok qs ->
+  poles_all ax (As ++ Bs) hkl = Ok (ps ++ qs).
+Proof. exact @poles_batch_app_proof. Qed.
+
+(* illegal strings (outside the property; pinned behaviour): shorter than two characters ->
+   IndexError; a successful read means the first two letters are axis letters and the upward
+   candidates are the axis letters that do not occur; a repeated letter leaves TWO candidates *)
+Theorem C20_poles_short_string : forall s : string,
+  (String.length s < 2)%nat -> ref_axes_read s = Err IndexError.
+Proof. exact ref_axes_short_proof. Qed.
+
+Theorem C20_poles_string_read_inv : forall (s : string) (h v : nat) (ups : list nat),
+  ref_axes_read s = Ok (h, v, ups) ->
+  exists a b, String.get 0 s = Some a /\ String.get 1 s = Some b /\
+    axis_index (lower_ascii a) = Some h /\ axis_index (lower_ascii b) = Some v /\
+    ups = leftover (lower_str s) /\ ups <> [].
+Proof. exact ref_axes_ok_inv_proof. Qed.
+
+Theorem C20_poles_illegal_strings :
+  ref_axes_read "xx" = Ok (0, 0, [1; 2])%nat /\ ref_axes_read "ZZ" = Ok (2, 2, [0; 1])%nat /\
+  ref_axes_read "xzz" = Ok (0, 2, [1])%nat /\ ref_axes_read "xz " = Ok (0, 2, [1])%nat /\
+  ref_axes_read "xzy" = Err KeyError /\ ref_axes_read "xw" = Err KeyError /\
+  ref_axes_read " xz" = Err KeyError /\ ref_axes_read "x" = Err IndexError /\
+  ref_axes_read "" = Err IndexError.
+Proof. exact ref_axes_illegal_proof. Qed.
+
+(* non-vacuity of the new hypotheses *)
+Example C20_poles_str_nonvacuous :
+  In ("XZ"%string, 1%Z) spelling_table /\ (String.length "x" < 2)%nat /\
+  exists ps, @poles_str NumR "XZ" 0 [id9] e100 = Ok ps.
+Proof. exact poles_str_nonvacuous_proof. Qed.
 
 (* --- Lambert equal-area projection --------------------------------------------------- *)
 
